@@ -89,7 +89,8 @@ func vComponentDests(name string) []string {
 
 // H03b: one add step. File type index ti, message number gmn (parameters).
 // Pre-state: every slice of the container holds L (0..2, symbolic) distinct
-// messages, every single slot is nil or set (symbolic). The message is the
+// messages (for L = 0 either nil, as NewFile leaves it, or empty: symbolic),
+// every single slot is nil or set (symbolic). The message is the
 // all-invalid value with every integer field arbitrary. Oracle from the
 // types: the unique container field of type *T or []*T.
 func H03b() {
@@ -99,12 +100,16 @@ func H03b() {
 	cont := vContainer(f, ti)
 	L := vConcretize(vInt(0, 2))
 	set := vBool()
+	nilpre := vBool()
 	// build the pre-state
 	var before []reflect.Value
 	for i := 0; i < cont.NumField(); i++ {
 		fld := cont.Field(i)
 		switch fld.Kind() {
 		case reflect.Slice:
+			if L == 0 && nilpre {
+				break
+			}
 			s := reflect.MakeSlice(fld.Type(), L, L)
 			for j := 0; j < L; j++ {
 				s.Index(j).Set(reflect.New(fld.Type().Elem().Elem()))
